@@ -11,7 +11,9 @@
 //	            var-ints, uncompressed keys) through both entry paths has the
 //	            same hash, size and verdict as the canonical one
 //	proposable  every bounded pool content packed by ApplyPolicyToTxSet gives a
-//	            block that survives the wire and is accepted by a fresh replica
+//	            block that survives the wire and is accepted by a fresh replica;
+//	            the same end to end for every attribute shape at its fee
+//	            boundary (exact, one unit less, attribute fee unpaid)
 package c07
 
 import (
@@ -125,6 +127,8 @@ const (
 	tConflicts
 	tExecMin
 	tExecFrac
+	tDesigOracle
+	tOracleReq
 )
 
 type env struct {
@@ -138,7 +142,7 @@ type env struct {
 	thor  bool
 	count struct {
 		sound, soundRej, fee, enc, encVerdict, block vk.Counter
-		states                                      *vk.Set
+		states                                       *vk.Set
 	}
 }
 
@@ -167,6 +171,7 @@ func newEnv(r *vk.Run) (*env, error) {
 	tpls := []chainx.Tpl{setupTpl()}
 	tpls = append(tpls, chainx.TplByName("policy-fee+tx", "block-account3")...)
 	tpls = append(tpls, conflictsTpl(e.cast), execFeeTpl("c07-exec-min", 1), execFeeTpl("c07-exec-frac", 300001))
+	tpls = append(tpls, chainx.TplByName("designate-oracle", "oracle-request")...)
 	sc, err := chainx.NewScenario(famSingle(protoExtra), 0, tpls)
 	if err != nil {
 		return nil, fmt.Errorf("preamble: %w", err)
@@ -179,13 +184,19 @@ func newEnv(r *vk.Run) (*env, error) {
 		{Name: "conflicts-onchain", Hist: []int{tSetup, tConflicts}},
 		{Name: "exec-min", Hist: []int{tSetup, tExecMin}},
 		{Name: "exec-frac", Hist: []int{tSetup, tExecFrac}},
+		{Name: "oracle", Hist: []int{tSetup, tDesigOracle, tOracleReq}, Oracle: true},
 	}
 	if err := sc.Grow([]int{tSetup}); err != nil {
 		return nil, fmt.Errorf("setup block: %w", err)
 	}
 	for _, s := range e.st[1:] {
-		if err := sc.Grow(s.Hist); err != nil {
-			return nil, fmt.Errorf("state %s: %w", s.Name, err)
+		for d := 2; d <= len(s.Hist); d++ {
+			if sc.Get(s.Hist[:d]) != nil {
+				continue
+			}
+			if err := sc.Grow(s.Hist[:d]); err != nil {
+				return nil, fmt.Errorf("state %s: %w", s.Name, err)
+			}
 		}
 	}
 	return e, nil
@@ -247,6 +258,10 @@ func (rn *runner) mkFacts() *facts {
 		Accts:          knownAccts(rn.n),
 	}
 	f.NotaryKeys = append(f.NotaryKeys, chainx.Acc(4).PublicKey())
+	if rn.st.Oracle {
+		f.OracleHash = oracleNodesAcct().Hash
+		f.OracleReq = map[uint64]int64{0: oracleRequestGas}
+	}
 	f.Balance = func(h util.Uint160) int64 { return bc.GetUtilityTokenBalance(h, util.Uint160{}).Int64() }
 	// the ledger content, from the blocks the scenario fed to the replica
 	blocks, _ := rn.e.sc.Blocks(rn.st.Hist)
@@ -416,8 +431,10 @@ func TestCheck(t *testing.T) {
 		soundCov = e.runSound()
 	}
 	t1 := time.Now()
+	var attrBlockCov map[string]any
 	if want("block") {
 		blockCov = e.runBlocks()
+		attrBlockCov = e.runAttrBlocks()
 	}
 	t2 := time.Now()
 	if want("fee") {
@@ -428,26 +445,28 @@ func TestCheck(t *testing.T) {
 	e.f.flush(r)
 	pprof.StopCPUProfile()
 	cov := map[string]any{
-		"states":                        e.count.states.Len(),
-		"transitions":                   int(e.count.sound.Get() + e.count.fee.Get() + e.count.encVerdict.Get() + e.count.block.Get()),
-		"traces_validated_against_impl": int(e.count.sound.Get() + e.count.fee.Get() + e.count.encVerdict.Get() + e.count.block.Get()),
-		"sound_submissions":             int(e.count.sound.Get()),
+		"states":                                 e.count.states.Len(),
+		"transitions":                            int(e.count.sound.Get() + e.count.fee.Get() + e.count.encVerdict.Get() + e.count.block.Get()),
+		"traces_validated_against_impl":          int(e.count.sound.Get() + e.count.fee.Get() + e.count.encVerdict.Get() + e.count.block.Get()),
+		"sound_submissions":                      int(e.count.sound.Get()),
 		"sound_rejections_checked_for_no_effect": int(e.count.soundRej.Get()),
-		"fee_threshold_transactions":    int(e.count.fee.Get()),
-		"encoding_variants_decoded":     int(e.count.enc.Get()),
-		"encoding_variants_submitted":   int(e.count.encVerdict.Get()),
-		"proposable_pool_contents":      int(e.count.block.Get()),
-		"sound":                         soundCov,
-		"fee":                           feeCov,
-		"proposable":                    blockCov,
-		"outcomes_by_subcheck":          e.outs,
-		"findings_not_listed":           e.f.dropped,
-		"rule":                          "state = (sub-check, chain state or family, transaction content / pool content); every element of the stated finite sets is executed on a real replica",
+		"fee_threshold_transactions":             int(e.count.fee.Get()),
+		"encoding_variants_decoded":              int(e.count.enc.Get()),
+		"encoding_variants_submitted":            int(e.count.encVerdict.Get()),
+		"proposable_pool_contents":               int(e.count.block.Get()),
+		"sound":                                  soundCov,
+		"fee":                                    feeCov,
+		"proposable":                             blockCov,
+		"proposable_attribute_boundaries":        attrBlockCov,
+		"outcomes_by_subcheck":                   e.outs,
+		"findings_not_listed":                    e.f.dropped,
+		"rule":                                   "state = (sub-check, chain state or family, transaction content / pool content); every element of the stated finite sets is executed on a real replica",
 	}
 	r.Finish(cov, []string{
 		"the validity predicate takes the witness cost of standard contracts from the fee calculator (its exactness is what the fee sub-check decides) and of other witnesses from a verification run, as the RPC server does",
 		"admission paths: wire bytes -> NewTransactionFromBytes -> PoolTx (P2P/RPC), wire bytes -> Transaction.DecodeBinary -> PoolTx (block body codec), structure -> VerifyTx; faults the codec itself rejects count as rejections of the byte paths",
-		"single-validator family (committee = validator), P2PSigExtensions on, all hardforks active; account 4 is the only notary node, no oracle nodes",
+		"required attribute fee = independent reference from the Policy getter getAttributeFee(type) (read by a test invocation): Conflicts x signers, NotaryAssisted x (NKeys+1), others x 1; Blockchain.CalculateAttributesFee is never consulted; fee-per-byte and the execution fee factor are read from the plain getters",
+		"single-validator family (committee = validator), P2PSigExtensions on, all hardforks active; account 4 is the only notary node; oracle node (account 3) and a pending request exist in the state named oracle only",
 		"NotaryAssisted: only the ledger rules (Notary signer present, attribute fee by NKeys) are in the oracle; NKeys consistency with the witnesses is the notary service's rule, not the ledger's",
 		"proposable blocks: limits are checked on the serialised block (size), the selected set (count, system fee) and by the backup-side procedure of consensus.verifyBlock re-done on the fresh replica",
 	})
